@@ -7,3 +7,4 @@ pub mod ops;
 pub mod parse;
 pub mod rng;
 pub mod runner;
+pub mod tap;
